@@ -2,15 +2,17 @@
 from vlib.tok import s as S
 from checks.storegen import World, NAMES, PLAIN, BLOCK_KINDS, with_hdump
 ID = 'C03'
-THEOREMS = ['Nix.St.find_by_name', 'Nix.St.find_by_id', 'Nix.St.find_by_id_shadowed', 'Nix.St.count_eq_enumeration_length', 'Nix.St.enumeration_eq_by_index', 'Nix.St.nthChild_isSome_iff', 'Nix.St.blkFind_by_name', 'Nix.St.blkFind_by_name_and_id', 'Nix.St.blkFind_by_id', 'Nix.St.createBlock_appends', 'Nix.St.delete_keeps_order', 'Nix.St.unlinkAll_preserves_container', 'Nix.St.createBlock_preserves_container', 'Nix.St.blocks_container_invariant', 'Nix.St.newFile_blocks_container', 'Nix.St.newFile_wt', 'Nix.St.apply_wt', 'Nix.St.run_wt', 'Nix.St.reachable_wt', 'Nix.St.names_unique_per_parent', 'Nix.St.lookup_by_name_finds_the_link', 'Nix.St.children_are_groups', 'Nix.St.properties_are_datasets', 'Nix.St.link_targets_exist', 'Nix.St.links_conform_to_schema', 'Nix.St.WT.block_containers_hold_groups']
-LEAN_MODULES = ['NixModel.Props.C03', 'NixModel.Props.C03Inv', 'NixModel.Props.C03Schema', 'NixModel.Proofs.Roles', 'NixModel.Proofs.RolesLookup', 'NixModel.Proofs.RolesOps', 'NixModel.Proofs.RolesHistory']
+THEOREMS = ['Nix.St.find_by_name', 'Nix.St.find_by_id', 'Nix.St.find_by_id_shadowed', 'Nix.St.count_eq_enumeration_length', 'Nix.St.enumeration_eq_by_index', 'Nix.St.nthChild_isSome_iff', 'Nix.St.blkFind_by_name', 'Nix.St.blkFind_by_name_and_id', 'Nix.St.blkFind_by_id', 'Nix.St.createBlock_appends', 'Nix.St.delete_keeps_order', 'Nix.St.unlinkAll_preserves_container', 'Nix.St.createBlock_preserves_container', 'Nix.St.blocks_container_invariant', 'Nix.St.newFile_blocks_container', 'Nix.St.newFile_wt', 'Nix.St.apply_wt', 'Nix.St.run_wt', 'Nix.St.reachable_wt', 'Nix.St.names_unique_per_parent', 'Nix.St.lookup_by_name_finds_the_link', 'Nix.St.children_are_groups', 'Nix.St.properties_are_datasets', 'Nix.St.link_targets_exist', 'Nix.St.links_conform_to_schema', 'Nix.St.WT.block_containers_hold_groups',
+            'Nix.St.apply_idStep', 'Nix.St.apply_idUniq', 'Nix.St.run_idUniq', 'Nix.St.ids_pairwise_distinct', 'Nix.St.findGroupByAttribute_of_idUniq',
+            'Nix.St.lookup_by_id_finds_the_entity', 'Nix.St.lookup_by_name_finds_the_entity', 'Nix.St.lookups_by_name_and_id_agree', 'Nix.St.children_ids_distinct']
+LEAN_MODULES = ['NixModel.Props.C03', 'NixModel.Props.C03Inv', 'NixModel.Props.C03Schema', 'NixModel.Proofs.Roles', 'NixModel.Proofs.RolesLookup', 'NixModel.Proofs.RolesOps', 'NixModel.Proofs.RolesHistory', 'NixModel.Proofs.IdUniq', 'NixModel.Props.C03Ids']
 RULE = ('random create / delete / re-create histories over every container kind (blocks, nested sections, nested sources, data arrays, data frames, '
         'tags, multi-tags, groups, properties, features, tag references, group members, entity sources) with an adversarial name pool (UUID-shaped, '
         '"..", case / whitespace twins, UTF-8, names of internal containers); after every few mutations every container of every parent is '
         'cross-checked through every access path (index, name, id, has by name / id / handle, count, enumeration) and against the creation order; '
         'close + reopen in between. non-trivial = a container with >= 2 children was cross-checked; distinct = distinct op text.')
 TRUSTED = ['harness op xcheck / xlinks (calls every public lookup of the container)', 'HDF5 creation-order index']
-LEVEL_TEXT = ("Lean 4 theorems about the store model, for every container that creation can produce (link names distinct and non-empty, children groups with distinct ids), every size and every index: the i-th child is returned by the lookup by its name and by the lookup by its id (file / section / source containers and the containers of a block, incl. the name+id form used by the handle queries), count = length of the enumeration = number of valid indices, enumeration = children by index; a successful create appends at the end under a name no sibling had; every delete leaves the survivors' links as a sublist in the old order. The id lookups carry the proviso that no sibling is NAMED like the id — shown to be exactly what the duplicate check of create protects. Link containers keyed by id (tag references, group members, entity sources) looked up by a UUID-shaped NAME are the known finding K1: the model reproduces the library bug-for-bug there and the relation evaluated on the implementation reports it. The first clause — names unique per parent — is proved of every reachable state without a hypothesis on the state: the schema of a nix file (every object has a role; every link leads from a holder of role r under name n to a target of role childRole r n; targets exist; only properties containers hold data sets; non-empty link names are pairwise distinct in every object) holds of a new file and is kept by every one of the 30 entry points of the store model whenever its object arguments have the role their C++ front-end type guarantees (apply_wt, run_wt; roles are ghost state carried by the theorems) — so nix never asks HDF5 for a link name that is taken, a non-empty name looked up yields exactly the child linked under it, and no openGroup of the entity layer ever meets a data set. Every access path of every child of every container is cross-checked on the library after random create / delete / re-create histories with an adversarial name pool, and the model must predict every answer.")
+LEVEL_TEXT = ("Lean 4 theorems about the store model, for every container that creation can produce (link names distinct and non-empty, children groups with distinct ids), every size and every index: the i-th child is returned by the lookup by its name and by the lookup by its id (file / section / source containers and the containers of a block, incl. the name+id form used by the handle queries), count = length of the enumeration = number of valid indices, enumeration = children by index; a successful create appends at the end under a name no sibling had; every delete leaves the survivors' links as a sublist in the old order. The id lookups carry the proviso that no sibling is NAMED like the id — shown to be exactly what the duplicate check of create protects. Link containers keyed by id (tag references, group members, entity sources) looked up by a UUID-shaped NAME are the known finding K1: the model reproduces the library bug-for-bug there and the relation evaluated on the implementation reports it. The first clause — names unique per parent — is proved of every reachable state without a hypothesis on the state: the schema of a nix file (every object has a role; every link leads from a holder of role r under name n to a target of role childRole r n; targets exist; only properties containers hold data sets; non-empty link names are pairwise distinct in every object) holds of a new file and is kept by every one of the 30 entry points of the store model whenever its object arguments have the role their C++ front-end type guarantees (apply_wt, run_wt; roles are ghost state carried by the theorems) — so nix never asks HDF5 for a link name that is taken, a non-empty name looked up yields exactly the child linked under it, and no openGroup of the entity layer ever meets a data set. The lookup by ID is likewise proved of every reachable state: the id invariant IdUniq (two objects of the file that carry the same entity_id are one object — deleted, unlinked objects included, so an id is never reused) is kept by every one of the 30 entry points given an id that is new to the file (apply_idUniq: each entry point is unfolded into the store primitives it is made of and shown to write an entity_id onto at most one object), hence by every history (run_idUniq), and under it the first child carrying the id IS its owner (lookup_by_id_finds_the_entity, lookups_by_name_and_id_agree, for every container of every reachable file); that the library's generator hands out ids that are new to the file is checked on every mk of every history of the tie (rule new_id_was_never_used_in_this_file, against the model store, which never forgets an object). Every access path of every child of every container is cross-checked on the library after random create / delete / re-create histories with an adversarial name pool, and the model must predict every answer.")
 LEVEL_NOTE = ("Trusted: Lean kernel; the abstract HDF5 store of lean/NixModel/Store.lean (objects, attributes, ordered hard links, removeAllLinks = every link to the object goes, creation-order index) and the hand-written entity layer lean/NixModel/Entities.lean, both validated on every run: the model replays every op of every generated history and must predict the library's answer (result / exception class, looked-up ids, counts, enumerations, cross-checks) and, at every dump, the whole observable tree (observe); ids and creation times are taken from the trace; fields the store model does not carry (array data, dimension descriptors, calibration, property values, row counts) are compared between dumps of the library only; harness dump = every public getter of every entity.")
 ASSUMPTIONS = ['entity sources offer has-by-id only (documented signature)']
 
